@@ -4,7 +4,7 @@
 # default) without touching the evidence files, reports which fire, and always
 # restores /repo afterwards.
 set -u
-PATCH="$1"; shift
+PATCH="$(realpath "$1")"; shift
 cd /verif
 PROPS="$*"
 if [ -z "$PROPS" ]; then PROPS=$(python3 -c "import json; print(' '.join(c['property_id'] for c in json.load(open('/verif/MANIFEST.json'))['checks']))"); fi
